@@ -177,7 +177,7 @@ theorem maxData_of_not_low (c : Cfg) (h : lowBudget c = false) : 3 ≤ min 1276 
   · simp [hv] at h; omega
 
 /-- No coded frame of the call exceeded its byte budget (the inner-encoder contract "the SILK payload
-    fits the budget"; the bust branch of src/opus_encoder.c:2443-2452 is not taken). -/
+    fits the budget"; the bust branch of src/opus_encoder.c:2448-2457 is not taken). -/
 def NoBust (o : CallOr) : Prop := ∀ s ∈ o.subs, s.bust = false
 
 theorem finalPkt_nobust (l : List Bool) (n : Nat) (subs : List Sub) (h : ∀ s ∈ subs, s.bust = false) :
